@@ -29,6 +29,26 @@ CLAIMED["C04"] = dict(
    note=TB + "Modelled, not verified: asyncio.StreamReader.readexactly / feed_data, StreamWriter; ssl. Payloads >= 16 MiB are compared by packet (seq,len) list and independent reassembly, not byte-for-byte in Lean.",
    design="DESIGN.md section 4, C04")
 
+CLAIMED["C11"] = dict(
+   technique="Lean 4 proof (list induction over fetch-size sequences; frame lemmas over the statement registry) + differential execution of prepare/execute/fetch/reset/close programs",
+   text="Theorems in lean/MimicProps/C11.lean: a fetch returns take n / leaves drop n and is flagged last-row-sent iff it could not be filled; for every "
+        "result and every sequence of fetch sizes the concatenated rows are the first sum(sizes) rows (each once, in order); commands on statement a leave "
+        "statement b untouched; re-execute / reset / close discard the cursor; unknown ids yield ERR. Tie: the real connection is driven with exhaustive "
+        "(N<=5 quick, N<=8 thorough) and random programs (sync/async/raising sources, failing application, fetch sizes up to 2^32-1) and compared "
+        "answer-by-answer with the model; the property oracle is evaluated on the decoded rows.",
+   note=TB + "Rows are opaque identifiers in the model (their encoding is C05). Async-generator finalisation by the interpreter is not modelled.",
+   design="DESIGN.md section 4, C11")
+CLAIMED["C05"] = dict(
+   technique="Lean 4 proof (round-trip theorems for NULL bitmap, binary rows of all encoder classes, text framing, decimal text, durations; row-preservation of inference) + extracted encoder tables + byte-for-byte differential execution",
+   text="Theorems in lean/MimicProps/C05.lean: NULL-bitmap round trip for every size/offset/pattern; binary rows of well-formed values of every supported "
+        "encoder class decode to the application's values for every shape; integers are carried exactly iff in range; TIME round trip (binary) for every "
+        "duration < 2^32 days and field-wise for the text form; text-row framing for cells of any length; decimal text; type inference preserves the row "
+        "sequence; inference order and encoder tables as extracted. Tie: tables re-extracted each run; real make_*_row / infer_type / _ensure_result_cols "
+        "compared byte-for-byte with the model on typed random rows; independent client decoding of the real packets at unit level and end-to-end. "
+        "Partial: float packing/str(float) and codecs are opaque bytes.",
+   note=TB + "Modelled, not verified: struct float packing, str(float), Python codecs, datetime arithmetic of timedelta normalisation (compared differentially).",
+   design="DESIGN.md section 4, C05")
+
 REASON_PENDING = "check not built yet (work in progress; see DESIGN.md section 9)"
 
 m = {
